@@ -69,7 +69,7 @@ def main(tier):
         G.number_statements(prog)
         src = G.render(prog)
         pc0 = 0x2000
-        cases.append({"id": i, "files": {"main.asm": src}, "pc": pc0, "want": ["segments", "symbols", "vice"], "max_passes": 60})
+        cases.append({"id": i, "files": {"main.asm": src}, "pc": pc0, "want": ["segments", "symbols", "vice", "passes"], "max_passes": 60})
         progs[i] = (prog, src, pc0)
     obs, p = V.run_harness("asmdrive", cases, "C02-drive")
     if len(obs) != len(cases):
@@ -87,6 +87,30 @@ def main(tier):
     V.log("[C02] %d programs, %d built successfully, %d skipped (anonymous scopes not matchable)" % (len(cases), nok, skipped))
     if nok < len(cases) // 10:
         raise V.ToolError("too few generated programs build (%d of %d): generator or tree broken" % (nok, len(cases)))
+    # tier 2: the per-pass observations of the real loop against the pass machine (drift only, never a verdict)
+    precs = []
+    for rec in recs:
+        o = omap[rec["id"]]
+        if not o.get("passes") or o.get("panic") or o.get("stopped_by_observer") or o["parse_diags"]:
+            continue
+        if not rec["ok"]:
+            # a rejected program: the machine must fail the same way; name its anonymous scopes from the last pass's table
+            prog = progs[rec["id"]][0]
+            if not G.assign_anon_scopes(prog, [s["path"] for p in o["passes"] for s in p["symbols"]]):
+                continue
+            rec = dict(rec, prog=G.tla_ready(prog))
+        pr = dict(rec)
+        pr["passes"] = [{"syms": [{"path": s["path"], "kind": s["kind"], "val": s["val"]} for s in p["symbols"]],
+                         "undefined": sorted({u["id"] for u in p["undefined"]}), "nerrors": len(p["errors"]),
+                         "segs": [{"name": s["name"], "pc": s["pc"]} for s in p["segments"]]} for p in o["passes"]]
+        pr["ended"] = "ok" if rec["ok"] else "failed"
+        precs.append(V.clip_tree(pr))
+    prow, pst = V.judge(os.path.join(SPEC, "PassTrace.tla"), precs[:1500 if tier == "quick" else 12000], cfg=os.path.join(SPEC, "PassTrace.cfg"), tag="C02-passes", batch=400, timeout=3000)
+    rep.add_stats(pst)
+    rep.cov["pass_traces_validated"] = min(len(precs), 1500 if tier == "quick" else 12000)
+    rep.cov["pass_machine_drift"] = len(prow)
+    for v in prow:
+        rep.verdict(v, {})
     verdicts, st = V.judge(os.path.join(SPEC, "AsmTrace.tla"), recs, cfg=os.path.join(SPEC, "AsmTrace.cfg"), tag="C02-judge", batch=1500, timeout=3000)
     rep.add_stats(st)
     rep.cov["traces_validated_against_impl"] = nok
